@@ -11,7 +11,8 @@ RULE = ("equilibrium (Moebius), noisy/non-equilibrium (bulged) and straight tiss
         "0.5*pi..pi (uniform, plus limits placed 1e-3..1e-1 below/above a junction's actual maximal opening) and the defaults "
         "(ForSys: none given; explicit inf; explicit pi) x static and velocity right-hand sides x default and lsq back-ends "
         "(lsq with user initial conditions). distinct = (family, unknowns, excluded, flagged junctions, limit class, method, "
-        "rhs); non-trivial = at least one junction equation in the full system")
+        "rhs); non-trivial = at least one junction equation in the full system"
+        " Added after the seeded rounds: lattices with 4..10-fold junctions, a second scan of limits after the frame's vertices moved in place.")
 MIN_DECISIVE = {"quick": 150, "thorough": 2000}
 REQUIRED_COUNTERS = ["post:ForceMatrix", "deletes:checked", "post:solve_stress", "solution:compared"]
 REQUIRED_HIST = {"any": ["with-exclusion", "no-exclusion", "method:default", "method:lsq", "rhs:velocity", "default-limit"]}
